@@ -49,8 +49,33 @@ def check(run, prop=PROP):
                                {"id": c["id"], "n": c["n"], "cpb": c["cpb"], "progs": c["progs"],
                                 "schedule": [s["tid"] for s in c["steps"]], "diverges_at": pos,
                                 "impl_events_around": c["steps"][max(0, p - 3):p + 3]})
+    # manager layer: several size classes (equal sizes included), sequential op sequences (mechanism D)
+    mcases, merr = freelist.run_manager_harness(300 if run.tier == "quick" else 6000, run.seed, prop + run.tier)
+    if merr:
+        run.add_corr_break("D: " + merr)
+        mcases = []
+    mfeat = {}
+    for c in mcases:
+        for m in c.get("oracle") or []:
+            if freelist.classify(m) != prop:
+                continue
+            run.add_oracle_failure("%s:manager:%s" % (prop, re.sub(r"[^A-Za-z0-9]+", "-", m)[:70]), m,
+                                   {"id": c["id"], "classes": c["classes"], "ops": c["ops"], "results": c["res"]})
+        for f in set(c.get("feat") or []):
+            mfeat[f] = mfeat.get(f, 0) + 1
+        if c.get("feat"):
+            distinct.add(json.dumps([c["classes"], c["ops"]]))
+    if mcases:
+        try:
+            for idx in freelist.eval_manager_cases(mcases, prop + run.tier)[:10]:
+                c = mcases[idx]
+                run.add_corr_break("D: manager case %s: allocation results differ from the model" % c["id"],
+                                   {"id": c["id"], "classes": c["classes"], "ops": c["ops"], "results": c["res"]})
+        except RuntimeError as ex:
+            run.add_corr_break("D: manager model evaluation failed: %s" % ex)
     run.coverage.update({
-        "evaluations": len(cases), "distinct_nontrivial": len(distinct),
+        "manager_cases": len(mcases), "manager_features": mfeat,
+        "evaluations": len(cases) + len(mcases), "distinct_nontrivial": len(distinct),
         "rule": "a case = (slots, capPerBuffer, per-thread programs of alloc/free/update/freeChain, schedule) run on the real instrumented "
                 "bufferList.pop/push, bufferSlice.update, bufferManager.recycleBuffers; non-trivial = a failed CAS, a failed allocation, a "
                 "message chain, the retry bound, or >=3 context switches; distinct by (config, schedule)",
